@@ -211,6 +211,8 @@ def native_replay(o=None):
 
 
 def run(R):
+    from engine.canary import run_canaries
+    run_canaries(R, ('symx',))
     R.assume('A6')
     R.trust('contract of AurelCore used by the driver: rel[v] on a fresh instance holding exactly the step\'s inputs returns F_v(inputs) (properties C01-C10 decide F_v)')
     t0 = time.time()
